@@ -115,6 +115,33 @@ func monC06() mc.Monitor {
 				}
 			}
 		}
+		// ---- a node removal can complete a replacement itself (placeholder on the removed node, real allocation on
+		// another one): whatever it completes or reverses, no queue and no user uses more afterwards than before
+		if st.Op.K == "NODE_REMOVE" {
+			inflight := false
+			for _, a := range pre.Apps {
+				for _, al := range a.Allocs {
+					if al.Ph && al.Released && al.Release != "" {
+						inflight = true
+					}
+				}
+			}
+			if inflight {
+				counts["C06.node-removal-during-swap"]++
+				for _, q := range sortedKeys(post.Queues) {
+					if pq := pre.Queues[q]; pq != nil && !post.Queues[q].Allocated.FitsIn(pq.Allocated) {
+						out = append(out, v("C06", "swap-usage-grew", "queue/node-removal", "removing node %s while a replacement was in flight raised the usage of queue %s from %s to %s", st.Op.A, q, pq.Allocated, post.Queues[q].Allocated))
+					}
+				}
+				for _, u := range sortedKeys(post.Users) {
+					for path, t := range post.Users[u].Queues {
+						if pu := pre.Users[u]; pu != nil && !t.Usage.FitsIn(pu.Queues[path].Usage) {
+							out = append(out, v("C06", "swap-usage-grew", "user/node-removal", "removing node %s while a replacement was in flight raised the usage of user %s in %s from %s to %s", st.Op.A, u, path, pu.Queues[path].Usage, t.Usage))
+						}
+					}
+				}
+			}
+		}
 		// ---- per task group: replaced never exceeds the number of placeholders
 		for _, id := range sortedKeys(post.Apps) {
 			a := post.Apps[id]
